@@ -78,14 +78,17 @@ def readToEnd (r : RHandle) : Res Bytes × RHandle :=
 
 end RHandle
 
-/-- `WritableFile::flush`: publish the buffer under the destination key -/
+/-- `WritableFile::flush`: publish the buffer under the destination key — only while the file
+still exists (a handle whose file was removed, or replaced by a directory, publishes nothing,
+like writes to an unlinked file) -/
 def memPublish (files : FMap) (key : Str) (buf : Bytes) : FMap :=
-  let prev := files.find? key
-  files.insert key {
-    ftype := .file, content := buf,
-    created := match prev with | some e => e.created | none => .now,
-    modified := .now,
-    accessed := match prev with | some e => e.accessed | none => .unset }
+  match files.find? key with
+  | some e =>
+    if e.ftype = .file then
+      files.insert key { ftype := .file, content := buf, created := e.created, modified := .now,
+                         accessed := e.accessed }
+    else files
+  | none => files
 
 namespace WHandle
 
